@@ -129,6 +129,26 @@ def cases(rng, tier):
         if k % 2:
             add_stage_blocks(rng, m)
         out.append({"op": None, "tag": "method-stages" if k % 2 else "method", "method": m})
+    # a user-type temporary made BEFORE a counted loop and used for the last time INSIDE it (a release at the last
+    # use would free it after the first iteration); with and without a later use, 1-3 iterations, two run() calls
+    V, C = fc.V, fc.C
+    for trips in (1, 2, 3):
+        for later in (False, True):
+            for inner in ("<builtin>norm_2", "<builtin>len"):
+                prog = [["stmt", ["call", ["v1"], "<func>rhs", [V("<t>"), V("<state>y")], []]],
+                        ["stmt", ["assign", "<state>y", None, ["+", [V("<state>y"), ["*", [V("<dt>"), V("v1")]]]], []]],
+                        ["stmt", ["call", ["v2"], "<func>rhs", [V("<t>"), V("<state>y")], []]],
+                        ["stmt", ["call", ["<p>w"], "<builtin>array", [C(3)], []]],
+                        ["stmt", ["assign", "<p>w", V("i"), C(0), [["i", C(0), C(3)]]]],
+                        ["stmt", ["assign", "<p>w", V("i"), ["+", [["call", inner, [V("v2")], []], V("i")]],
+                                  [["i", C(0), C(trips)]]]],
+                        ["stmt", ["assign", "<p>k", None, ["+", [V("<p>k"), ["call", "<builtin>norm_2", [V("<p>w")], []]]], []]]]
+                if later:
+                    prog.append(["stmt", ["assign", "<state>y", None, ["+", [V("<state>y"), ["*", [V("<dt>"), V("v2")]]]], []]])
+                prog.append(["stmt", ["yield", V("<state>y"), V("<t>"), "final", "y"]])
+                m = {"phases": [{"name": "p0", "next": "p0", "prog": prog}], "initial": "p0", "y0": [1, 2, -1],
+                     "exact": False, "k0": 0, "t0": 0, "dt": 0.5, "runs": 2}
+                out.append({"op": None, "tag": "last-use-inside-loop", "method": m})
     for tt in ([True, True, 4], [True, False, 3], [False, True, 3], [True, True, 1]):
         out.append({"op": None, "tag": "two-user-types", "two_types": tt})
     precompute(out)
